@@ -2,6 +2,7 @@ package props
 
 import (
 	"fmt"
+	"io"
 	"sort"
 	"strings"
 	"sync"
@@ -16,8 +17,12 @@ import (
 	"verifharness/fixtures"
 )
 
-// C01 universe: 36 delegation shapes (iss, aud in P; sub in P+Undef) + MISSING.
+// C01 universe: 36 delegation shapes (iss, aud in P; sub in P+Undef) + MISSING (the loader answers
+// ErrDelegationNotFound) + FAILS (the loader fails with another error, e.g. an I/O error).
 const c01Missing = 36
+const c01Fails = 37
+
+var errLoaderIO = fmt.Errorf("harness: injected loader failure: %w", io.ErrUnexpectedEOF)
 
 type c01Elem struct{ iss, aud, sub int } // sub == 3 -> Undef
 
@@ -27,7 +32,7 @@ func c01ElemOf(e int) c01Elem { return c01Elem{iss: e / 12, aud: (e / 4) % 3, su
 // by a harness loader, or sealed tokens decoded again and served by a container.Reader.
 type c01Univ struct {
 	toks    [36]*delegation.Token
-	cids    [37]cid.Cid // cids[36] is a CID no loader knows
+	cids    [38]cid.Cid // cids[36] is a CID no loader knows, cids[37] one for which the loader fails
 	loader  delegation.Loader
 	sealInv bool // the invocation is sealed with the invoker's key and decoded before the check
 }
@@ -53,6 +58,7 @@ func c01SealedInit() {
 			u.cids[e] = c
 		}
 		u.cids[36] = cidPool[36]
+		u.cids[37] = cidPool[37]
 		car, err := w.ToCar()
 		if err != nil {
 			panic(err)
@@ -68,8 +74,21 @@ func c01SealedInit() {
 			}
 			u.toks[e] = t
 		}
-		u.loader = rd
+		u.loader = failingLoader{rd, cidPool[37]}
 	})
+}
+
+// failingLoader answers an I/O error for one CID and delegates everything else.
+type failingLoader struct {
+	delegation.Loader
+	fails cid.Cid
+}
+
+func (l failingLoader) GetDelegation(c cid.Cid) (*delegation.Token, error) {
+	if c == l.fails {
+		return nil, errLoaderIO
+	}
+	return l.Loader.GetDelegation(c)
 }
 
 // mkInv builds the invocation of a state; in the sealed universe it is signed by the invoker and decoded again.
@@ -107,10 +126,10 @@ func c01Init() {
 		c01Universe.toks[e] = mustDlg(el.iss, el.aud, sub, "/a", nil)
 		m[cidPool[e]] = c01Universe.toks[e]
 	}
-	for e := 0; e <= 36; e++ {
+	for e := 0; e <= 37; e++ {
 		c01Universe.cids[e] = cidPool[e]
 	}
-	c01Universe.loader = &posLoader{byCid: m}
+	c01Universe.loader = failingLoader{&posLoader{byCid: m}, cidPool[37]}
 }
 
 type c01Case struct {
@@ -151,7 +170,7 @@ func c01Ref(iss, sub int, chain []int) int {
 		return rNoProof
 	}
 	for _, e := range chain {
-		if e == c01Missing {
+		if e >= c01Missing {
 			mask |= rMissing
 		}
 	}
@@ -160,7 +179,7 @@ func c01Ref(iss, sub int, chain []int) int {
 		// but a missing delegation alone already forbids "allowed".
 	}
 	get := func(i int) (c01Elem, bool) {
-		if chain[i] == c01Missing {
+		if chain[i] >= c01Missing {
 			return c01Elem{}, false
 		}
 		return c01ElemOf(chain[i]), true
@@ -195,9 +214,12 @@ func popcount(x int) int {
 }
 
 // c01Eval executes one state on the real code for all four audience values.
-func c01Eval(ctx *engine.Ctx, u *c01Univ, dir string, iss, sub int, chain []int) {
+func c01Eval(ctx *engine.Ctx, u *c01Univ, dir string, iss, sub int, chain []int, scratch *[8]cid.Cid) {
 	mask := c01Ref(iss, sub, chain)
-	prf := make([]cid.Cid, len(chain))
+	// The proof list handed to invocation.New is a slice of ONE caller-owned array that is refilled in
+	// place for every state of the case (an application building many invocations from a reused buffer):
+	// nothing may remember an earlier content of that array.
+	prf := scratch[:len(chain)]
 	for i, e := range chain {
 		prf[i] = u.cids[e]
 	}
@@ -241,7 +263,7 @@ func c01Eval(ctx *engine.Ctx, u *c01Univ, dir string, iss, sub int, chain []int)
 			for drop := range chain {
 				part := &posLoader{byCid: map[cid.Cid]*delegation.Token{}}
 				for k, e := range chain {
-					if k != drop && e != chain[drop] {
+					if k != drop && e != chain[drop] && e < c01Missing {
 						part.byCid[u.cids[e]] = u.toks[e]
 					}
 				}
@@ -277,6 +299,10 @@ func c01Describe(chain []int) string {
 			parts = append(parts, "MISSING")
 			continue
 		}
+		if e == c01Fails {
+			parts = append(parts, "LOADER-ERROR")
+			continue
+		}
 		el := c01ElemOf(e)
 		s := "-"
 		if el.sub < 3 {
@@ -290,13 +316,14 @@ func c01Describe(chain []int) string {
 func c01Run(u *c01Univ, dir string) func(ctx *engine.Ctx, c any) {
 	return func(ctx *engine.Ctx, c any) {
 		cs := c.(*c01Case)
+		var scratch [8]cid.Cid
 		var rec func(chain []int, left int)
 		rec = func(chain []int, left int) {
-			c01Eval(ctx, u, dir, cs.Iss, cs.Sub, chain)
+			c01Eval(ctx, u, dir, cs.Iss, cs.Sub, chain, &scratch)
 			if left == 0 {
 				return
 			}
-			for e := 0; e <= c01Missing; e++ {
+			for e := 0; e <= c01Fails; e++ {
 				ctx.Trans(1)
 				rec(append(chain, e), left-1)
 			}
@@ -311,9 +338,9 @@ func c01Run(u *c01Univ, dir string) func(ctx *engine.Ctx, c any) {
 func c01Sub(name, dir string, qn, tn int) *engine.Sub {
 	return &engine.Sub{
 		Name: name,
-		Rule: "explicit-state search: state = (invoker, subject, proof list over 36 delegation shapes + MISSING), transition = append one element; every state runs ExecutionAllowed and ExecutionAllowedWithArgsHook for audience in {none,p0,p1,p2}; non-trivial = states violating at most one rule kind",
+		Rule: "explicit-state search: state = (invoker, subject, proof list over 36 delegation shapes + MISSING), transition = append one element (MISSING = the loader answers not-found, LOADER-ERROR = it fails with an I/O error); the proof slices of all states of a case share one caller-owned array that is refilled in place; every state runs ExecutionAllowed and ExecutionAllowedWithArgsHook for audience in {none,p0,p1,p2}; non-trivial = states violating at most one rule kind",
 		Bound: func(t string) string {
-			return fmt.Sprintf("3 principals, proof lists of length 0..%d over 37 elements, 9 (invoker,subject) pairs x 4 audiences x 2 APIs", tierN(t, qn, tn))
+			return fmt.Sprintf("3 principals, proof lists of length 0..%d over 38 elements, 9 (invoker,subject) pairs x 4 audiences x 2 APIs", tierN(t, qn, tn))
 		},
 		Setup: func(string) error { c01Init(); return nil },
 		Gen: func(tier string, emit func(any) bool) {
@@ -330,7 +357,7 @@ func c01Sub(name, dir string, qn, tn int) *engine.Sub {
 			}
 			for iss := 0; iss < 3; iss++ {
 				for sub := 0; sub < 3; sub++ {
-					for a := 0; a <= c01Missing; a++ {
+					for a := 0; a <= c01Fails; a++ {
 						if n == 1 {
 							if !emit(&c01Case{Iss: iss, Sub: sub, Chain: []int{a}}) {
 								return
@@ -340,7 +367,7 @@ func c01Sub(name, dir string, qn, tn int) *engine.Sub {
 						if !emit(&c01Case{Iss: iss, Sub: sub, Chain: []int{a}}) {
 							return
 						}
-						for b := 0; b <= c01Missing; b++ {
+						for b := 0; b <= c01Fails; b++ {
 							if !emit(&c01Case{Iss: iss, Sub: sub, Chain: []int{a, b}, Expand: n - 2}) {
 								return
 							}
@@ -369,7 +396,7 @@ func C01() *engine.Check {
 	return &engine.Check{
 		Property: "C01",
 		Level:    "model_checking",
-		Subs:     []*engine.Sub{c01Sub("principal-alignment", "sound", 3, 4), c01SealedSub("sealed-tokens-through-container", "sound", 2, 3)},
+		Subs:     []*engine.Sub{c01Sub("principal-alignment", "sound", 3, 4), c01SealedSub("sealed-tokens-through-container", "sound", 2, 3), longChainSub("C01")},
 		Assumptions: []string{
 			"three distinct Ed25519 principals; DIDs are used by the validator only through ==",
 			"principal-alignment: tokens are unsigned in-memory values served by a harness delegation.Loader (signature checking is C06's business); sealed-tokens-through-container: the same universe with every token signed, encoded, carried in a CAR container and decoded again",
